@@ -61,6 +61,12 @@ def encUpper (c : Codec) (st : EncState) (r : Ring) (src : Option (List Byte)) (
   | .ok w => .ok { w with st := { w.st with done := w.st.done + low } }
   | x => x
 
+/-- `mpt_queue_set(&qu->data, pos, len, buf)` with the return value ignored -/
+def setOr (r : Ring) (pos n : Nat) (bytes : List Byte) : Ring :=
+  match r.set pos n (some bytes) with
+  | .ok (r2, _) => r2
+  | _ => r
+
 /-- "try out-of-band wrapping": the open block crosses the storage end; it is copied to a 256 byte
     buffer, continued there and stored back with `mpt_queue_set` -/
 def encOob (c : Codec) (st : EncState) (r : Ring) (src : Option (List Byte)) : Res Work :=
@@ -74,10 +80,7 @@ def encOob (c : Codec) (st : EncState) (r : Ring) (src : Option (List Byte)) : R
       let set := o.st.done + o.st.scratch
       if done + set > r.max then .fault     -- MPT_ABORT("invalid encoder state for queue")
       else
-        let r1 : Ring := { r with len := done + set }
-        let r2 : Ring := match r1.set done set (some (o.win.take set)) with
-          | .ok (r2, _) => r2
-          | _ => r1
+        let r2 : Ring := setOr { r with len := done + set } done set (o.win.take set)
         .ok { st := { o.st with done := done + o.st.done }, ring := r2, push := (o.ret : Nat),
               cons := if src.isSome then [o.ret] else [] }
     | .err e => .ok { st := st, ring := r, push := e.code }
@@ -93,8 +96,19 @@ def encLowerFirst (c : Codec) (st : EncState) (r : Ring) (src : Option (List Byt
   else if st.scratch ≥ 256 then .ok { st := st, ring := r, push := -1 }
   else encOob c st r src
 
+/-- second push for the rest of the input: on aligned data, or "second push in upper part only"
+    (the same window and offsets as `encUpper`: neither `off` nor `max` changed since they were read) -/
+def encSecond (c : Codec) (w : Work) (low : Nat) (rest : List Byte) : Res Work :=
+  if w.st.done < low then
+    -- encode on aligned data
+    encAligned c w.st { w.ring with len := w.st.done + w.st.scratch } (some rest) w.cons
+  else encUpper c w.st w.ring (some rest) w.cons
+
+/-- `if (push2 > 0) push += push2` -/
+def addPush (w w2 : Work) : Work := { w2 with push := if w2.push > 0 then w.push + w2.push else w.push }
+
 /-- the second attempt after the lower part: retry on aligned data, or continue with the rest of the input -/
-def encLowerSecond (c : Codec) (w : Work) (low high : Nat) (src : Option (List Byte)) : Res Work :=
+def encLowerSecond (c : Codec) (w : Work) (low : Nat) (src : Option (List Byte)) : Res Work :=
   if w.push < 0 then
     -- bad encoding attempt
     encAligned c w.st w.ring src w.cons
@@ -104,18 +118,8 @@ def encLowerSecond (c : Codec) (w : Work) (low high : Nat) (src : Option (List B
     | some bytes =>
       if w.push.toNat < bytes.length then
         -- incomplete append action
-        let rest := bytes.drop w.push.toNat
-        let second : Res Work :=
-          if w.st.done < low then
-            -- encode on aligned data
-            encAligned c w.st { w.ring with len := w.st.done + w.st.scratch } (some rest) w.cons
-          else
-            -- second push in upper part only
-            match encWin c { w.st with done := w.st.done - low } w.ring 0 high (some rest) w.cons with
-            | .ok w2 => .ok { w2 with st := { w2.st with done := w2.st.done + low } }
-            | x => x
-        match second with
-        | .ok w2 => .ok { w2 with push := if w2.push > 0 then w.push + w2.push else w.push }
+        match encSecond c w low (bytes.drop w.push.toNat) with
+        | .ok w2 => .ok (addPush w w2)
         | x => x
       else .ok w
 
@@ -153,7 +157,7 @@ def pushWork (c : Codec) (q : EncodeQueue) (data : Option (List Byte)) : Res Wor
     encUpper c q.st r data []
   else
     match encLowerFirst c q.st r data with
-    | .ok w => encLowerSecond c w (r.max - r.off) r.off data
+    | .ok w => encLowerSecond c w (r.max - r.off) data
     | x => x
 
 /-- `mpt_queue_push(qu, len, base)`; `data = none` is `len = 0` (terminate the message), otherwise the bytes
@@ -224,21 +228,24 @@ def decCall (v : Variant) (q : DecodeQueue) : DecodeQueue × DecRet :=
   ({ q with ring := { q.ring with store := putContent q.ring o.store }, st := o.st }, o.ret)
 
 /-- after `mpt_qpre` the new space belongs to the work area: the decoded data stays at its offset (moved
-    there in parts through a 256 byte buffer with `mpt_queue_get` / `mpt_queue_set`) -/
-def moveBack (r : Ring) (shift pos left : Nat) : Res Ring :=
-  if left = 0 then .ok r
-  else
-    let part := min left 256
-    match r.get (pos + shift) part true with
-    | .ok (_, buf) =>
-      match r.set pos part (some buf) with
-      | .ok (r1, _) => moveBack r1 shift (pos + part) (left - part)
+    there in parts through a 256 byte buffer with `mpt_queue_get` / `mpt_queue_set`); the first argument
+    bounds the number of parts (every part moves at least one byte) -/
+def moveBackLoop (shift : Nat) : Nat → Ring → Nat → Nat → Res Ring
+  | 0, r, _, _ => .ok r
+  | fuel + 1, r, pos, left =>
+    if left = 0 then .ok r
+    else
+      let part := min left 256
+      match r.get (pos + shift) part true with
+      | .ok (_, buf) =>
+        match r.set pos part (some buf) with
+        | .ok (r1, _) => moveBackLoop shift fuel r1 (pos + part) (left - part)
+        | .err _ => .fault
+        | .null => .null | .oob => .oob | .fault => .fault
       | .err _ => .fault
       | .null => .null | .oob => .oob | .fault => .fault
-    | .err _ => .fault
-    | .null => .null | .oob => .oob | .fault => .fault
-termination_by left
-decreasing_by omega
+
+def moveBack (r : Ring) (shift pos left : Nat) : Res Ring := moveBackLoop shift left r pos left
 
 /-- the end of a successful receive: `mpt_queue_shift`, then 1 if a message waits -/
 def recvDone (q : DecodeQueue) : Res (DecodeQueue × Int) :=
